@@ -97,6 +97,19 @@ def make_point(interp, args, kwargs):
     return Geom("point", x=x, y=y)
 
 
+def make_linestring(interp, args, kwargs):
+    """shapely LineString(coords): the coordinates are copied (as shapely does).  project / interpolate are not
+    modelled geometrically: their results are unconstrained reals (sound for frame conditions, which is all they are
+    used for: C18 drawing)"""
+    a = args[0] if type(args[0]) is NDArr else to_ndarr(interp, args[0])
+    if a.ndim != 2 or a.shape[1] not in (2, 3):
+        raise Unsupported("LineString of shape %s" % (a.shape,))
+    if a.shape[0] < 2:
+        raise PyExc(ValueError, ("LineStrings must have at least 2 coordinate tuples",))
+    interp.ctx.used_models.add("shapely LineString: project / interpolate return unconstrained values (only frame conditions rely on them)")
+    return Geom("linestring", pts=[tuple(r) for r in a.copy().data])
+
+
 def signed_area2(pts):
     """twice the signed area of a closed ring"""
     acc = None
@@ -153,6 +166,26 @@ def geom_attr(interp, g, name):
         if name == "coords":
             return _Coords(g.pts)
         raise Unsupported("exterior.%s" % name)
+    if g.kind == "linestring":
+        if name == "project":
+            def proj(it, args, kwargs):
+                d = ctx.fresh("ls_project", float)
+                ctx.assume(d.t >= 0)
+                return d
+            return ModelFn(proj, "LineString.project")
+        if name == "interpolate":
+            return ModelFn(lambda it, args, kwargs: Geom("point", x=ctx.fresh("ls_ix", float), y=ctx.fresh("ls_iy", float)), "LineString.interpolate")
+        if name == "coords":
+            return _Coords([p[:2] for p in g.pts])
+        if name == "length":
+            d = ctx.fresh("ls_length", float)
+            ctx.assume(d.t >= 0)
+            return d
+        raise Unsupported("LineString.%s" % name)
+    if g.kind == "point" and name == "coords":
+        return _Coords([(g.x, g.y)])
+    if g.kind == "point" and name in ("x", "y"):
+        return getattr(g, name)
     if name == "exterior" and g.kind == "polygon":
         return _Exterior(g.ring)
     if name == "buffer" and g.kind == "point":
@@ -270,6 +303,7 @@ def coords_to_array(interp, c):
 def install(models):
     models[shapely.geometry.Polygon] = make_polygon
     models[shapely.geometry.Point] = make_point
+    models[shapely.geometry.LineString] = make_linestring
     models[shapely.geometry.polygon.orient] = orient
     models[shapely.affinity.rotate] = rotate
     from shapely.strtree import STRtree as _STRtree
